@@ -27,7 +27,8 @@ LEVEL = "exploration"
 RULE = ("complete product position x value-class x dialect (every named string class, int/float/Decimal/bool/None/"
         "date/time/datetime/UUID/enum (plain, int-mixin, str-mixin, IntEnum)/JSON values at every position that accepts the kind, six dialects) plus seeded random "
         "values (hostile alphabet, 0-12 atoms, full Unicode range, nested JSON); non-trivial = the value is not a plain "
-        "alphanumeric string / small int; distinct = (position, dialect, value)")
+        "alphanumeric string / small int; distinct = (position, dialect, value)"
+        " also: literals next to minus signs, strings that spell SQL, text around engine length limits, literals that stay inline under a parameterizer, rows given as one list / tuple. (DESIGN.md 6a)")
 ASSUMPTIONS = [
     "for MySQL, PostgreSQL, SQL Server and Oracle the trusted base is the reference lexer (pvm/lex.py): MySQL strings honour "
     "backslash escapes and \"...\" is a string; PostgreSQL standard_conforming_strings=on; SQL Server QUOTED_IDENTIFIER ON",
